@@ -191,7 +191,24 @@ def main(argv):
     if (tier == 'thorough' or not os.environ.get('VX_QUICK_NO_SWEEP')) and not os.environ.get('VX_NO_WITNESS'):
         pseudo = [dict(unit=n, fn='*', id='witness::' + n) for n in sorted(units) if units[n].get('witness_programs')]
         wit_all = RP.run_witnesses(REPO, ROOT, units, pseudo, work) if pseudo else {}
-        listed = set(sum([k.get('inputs', []) for k in known if k.get('status') == 'open'], []))
+        # open findings of THIS property (a finding recorded under another property does not excuse a failure here)
+        listed_by = {}
+        for k in known:
+            if k.get('status') == 'open' and k.get('property') == prop:
+                for nm in k.get('inputs', []):
+                    listed_by.setdefault(nm, k)
+        listed = set(listed_by)
+        # a witness program belongs to a unit, a property is served by some of the unit's functions: a failing witness counts
+        # for THIS property only if it exercises a function tagged with it (or names no function under contract at all)
+        fn_props = {n: {f['label']: f['props'] for f in results[n]['fns']} for n in results}
+        def relevant(unit, wname):
+            wd = (units[unit].get('witnesses') or {}).get(wname, {})
+            if wd.get('props'):
+                return prop in wd['props']
+            labs = [l for l in wd.get('fns', []) if l in fn_props.get(unit, {})]
+            if not labs:
+                return True
+            return any((not fn_props[unit][l]) or prop in fn_props[unit][l] for l in labs)
         already = {x['name'] for v in violations for x in (v.get('_failing') or [])}
         for pv in pseudo:
             w = wit_all.get(pv['id'], {})
@@ -199,7 +216,13 @@ def main(argv):
             if not w.get('ran') and units[pv['unit']].get('witnesses'):
                 undecided.append('%s: witness program did not run: %s' % (pv['unit'], (w.get('log') or '')[-300:]))
             for x in w.get('failing', []):
+                if not relevant(pv['unit'], x['name']):
+                    continue
                 if x['name'] in listed:
+                    k = listed_by[x['name']]
+                    if k.get('id') not in known_hits:
+                        lines.append('KNOWN-FINDING: property=%s %s [%s::witness(%s)]' % (prop, k.get('what', ''), pv['unit'], x['name']))
+                        known_hits.append(k.get('id'))
                     continue
                 os.makedirs(replay_dir, exist_ok=True)
                 oid = '%s::witness(%s)' % (pv['unit'], x['name'])
